@@ -128,6 +128,9 @@ class Engine(CoreMixin, ExprMixin, CallMixin, StmtMixin, SpecMixin):
                 spec = spec_from_ctype(ct) if ct else None
             if p.arg == 'self' and spec is None:
                 spec = 'ref:%s' % cls
+            if spec == 'py:none':
+                st.locals[p.arg] = None
+                continue
             if isinstance(spec, (tuple, list)) or (isinstance(spec, str) and spec.startswith('py:')):
                 st.locals[p.arg] = self.python_param(p.arg, spec)
                 continue
